@@ -2,7 +2,11 @@
 from props.pipe_common import *
 PROPS_FILE = "Props_C01.v"
 RULE = ("random histories of UPDATEs (announce / withdraw / both for one prefix in one UPDATE / unparsable) from several BMP peers on 1-2 routers and "
-        "BGP sessions over a pool of 6 prefixes and 5 attribute sets, queried for random prefixes in between and for all at the end; "
+        "BGP sessions over a pool of 6 prefixes and 5 attribute sets, queried for random prefixes in between and for all at the end; in two cases of "
+        "three also UPDATE octets from C04's proved encoder handed to BMP peers / BGP sessions (IPv4/IPv6 unicast/multicast over a pool of 10 "
+        "prefixes shared with the abstract ops, MP_REACH / MP_UNREACH / conventional fields, End-of-RIB forms, unknown AFI/SAFIs) and malformed "
+        "variants (an MP attribute whose last NLRI is spoilt behind a good one; C04's mutations), every pool prefix queried; plus MRT update files "
+        "through C16's engine (a prefix withdrawn and announced by one UPDATE in a third of the UPDATEs); "
         "non-trivial = some query shows two or more sources or a withdrawn entry")
 
 
@@ -86,7 +90,8 @@ LEVEL_TEXT = ("Theorem over all update histories of the RIB model: what a query 
               "that prefix (exact characterisation including the sticky session-wide withdrawal), one entry per source, overlap ends announced, an "
               "unparsable UPDATE changes nothing, frame. Kernel-checked, axiom-free; tied to the real state machine + RIB unit + store by generated "
               "histories of real BMP/BGP bytes whose RIB answers are compared with the model and with the property's own reading (an ideal RIB keyed "
-              "by wire identity).")
+              "by wire identity). UPDATEs taken from the wire are interpreted by C04's decoder inside the pipeline model (injective numbering of wire "
+              "prefixes, one payload per route event, an UPDATE that does not decode is a no-op), all four families.")
 DESIGN_REF = "DESIGN.md section 6, C01"
 LEVEL_NOTE = ("Trusted: Coq kernel, extraction + OCaml driver, Rust harness. The end-to-end statement (wire identity level) is proved on the pipeline model "
               "(Pipe/PipeCompose.v, C01_pipeline_refines_ideal / C01_pipeline_rib_answer: every history below the u32 id counter with BMP router keys below "
